@@ -5,6 +5,7 @@ import json
 
 from tools import c04_collect as CO
 from tools import c04_gen as G
+from tools import c04_incexec as IX
 from tools import c04_loop as L
 from tools import fw
 from tools.fw import Disagreement, Failure, Report
@@ -26,6 +27,12 @@ LEVEL_TEXT = (
     "keys and per key the same set of field nodes as with @defer disabled (collect_defer_same_keys), and collect + plan read "
     "as a cut of one object is well formed, reassembles, and has exactly the non-incremental response keys once each "
     "(collect_plan_cut). "
+    "Executor: IncExec.incCut is a denotational model of the incremental executor itself for error-free @defer requests over "
+    "C02's schema/document/data model (collect with live defer usages over the real document, build_execution_plan per object "
+    "with the defer-usage set of the running (sub-)executor, one execution group per new defer-usage set, recursion into every "
+    "field value and list item); for every request on which it answers, its answer is a well-formed cut, so folding the delivered "
+    "pieces into the initial data in any parent-before-child order never overwrites or misses a target and gives the tree the same "
+    "recursion builds with nothing cut out (incExec_assemble_partial, incExec_assemble_any_order, incCut_wellformed). "
     "End-to-end: every payload stream produced by experimental_execute_incrementally under a controlled event loop "
     "(all completion orders of the harness futures up to the cap x consumer pull timing x early execution on/off) is "
     "folded by the Lean Assemble.apply and decided by the Lean clauses Spec.exact / Spec.approx against the Python "
@@ -35,9 +42,12 @@ LEVEL_NOTE = (
     "Trusted: Lean kernel; the hand-written plan model (tied to build_execution_plan by direct correspondence on "
     "generated FieldDetails/DeferUsage objects); the harness (event loop control, data realisation, reference run). "
     "collect_fields is modelled on unfolded selection trees of documents without fragment cycles (fragment variables out "
-    "of scope) and tied by direct correspondence. The incremental executor itself (the recursion into field values, "
-    "`sub k` in collect_plan_cut) is not modelled operationally: that the emitted pieces are a cut of the reference is what "
-    "the end-to-end oracle observes on every explored run."
+    "of scope) and tied by direct correspondence. The incremental executor itself is modelled denotationally for the error-free "
+    "@defer-only class (Gql/Async/IncExec.lean; tied to experimental_execute_incrementally by comparing initial data and the "
+    "multiset of (target path, data) pieces exactly on generated requests). Open (incExec_assemble_full): that the reference tree of "
+    "the model's cut is the specification's response to the document without @defer is checked by the driver on every generated "
+    "case (ref=1, specerrs=0), not proved; @stream and error propagation are outside the executor model — for those the emitted "
+    "pieces being a cut of the reference is what the end-to-end oracle observes on every explored run."
 )
 TECHNIQUE = "Lean 4 theorems + correspondence (plan) + Lean spec oracle on implementation runs under schedule control"
 TRUSTED = [
@@ -46,6 +56,8 @@ TRUSTED = [
     "hand-written Lean model Gql/Async/CollectDefer.lean of collect_fields/collect_subfields, tied to the code by calling "
     "the Python functions on generated documents (tools/c04_collect.py evaluates @skip/@include/@defer(if)/type conditions "
     "and unfolds fragments for the model)",
+    "hand-written Lean model Gql/Async/IncExec.lean of the incremental executor (error-free, @defer only, synchronous data), tied to "
+    "experimental_execute_incrementally by tools/c04_incexec.py (C02's generators and resolver harness; early execution off and on)",
     "Gql/Async/Assemble.lean is a specification of the delivery format's merge and of the property's two clauses "
     "(Spec.exact, Spec.approx), run through the driver on what the implementation emits",
     "tools/c04_loop.py: harness futures / async generators, quiescence detection via loop._ready",
@@ -61,8 +73,10 @@ ASSUMPTIONS = [
 ]
 EXPLANATION = (
     "Theorems: plan_partition, plan_parts_characterised, filtered_set_spec, assemble_order_independent (+ exact "
-    "refinements), apply_never_overwrites, assemble_eq_reference(_any_order), collect_defer_same_keys, collect_plan_cut. Oracle: Lean Assemble.apply + Spec "
-    "clauses on every payload stream of every explored schedule; plan model vs build_execution_plan; collect model vs collect_fields/collect_subfields."
+    "refinements), apply_never_overwrites, assemble_eq_reference(_any_order), collect_defer_same_keys, collect_plan_cut, "
+    "incExec_assemble_partial / _any_order / incCut_wellformed (executor model). Oracle: Lean Assemble.apply + Spec "
+    "clauses on every payload stream of every explored schedule; plan model vs build_execution_plan; collect model vs collect_fields/collect_subfields; "
+    "executor model IncExec vs experimental_execute_incrementally (initial data + piece multiset) with the merge relation as oracle on the delivered pieces."
 )
 
 CAP_QUICK = 24
@@ -509,6 +523,14 @@ def explore(ctx) -> Report:
     for r in creps:
         rep.merge(r)
     rep.stats["collect_docs"] = len(texts)
+    # executor model (IncExec) vs experimental_execute_incrementally on error-free @defer requests
+    n_inc = 600 if quick else 8000
+    iseed = ctx.sub_rng("c04-incexec").getrandbits(48)
+    seeds = list(IX.CORPUS) + [f"incexec:{iseed}:{i}" for i in range(n_inc)]
+    ireps = fw.pmap(IX.work, [(c, drv) for c in fw.chunked(seeds, fw.WORKERS * 2)])
+    for r in ireps:
+        rep.merge(r)
+    rep.stats["incexec_cases"] = n_inc
     rep.stats["plan_cases"] = plan_rep.evaluations
     rep.stats["plan_nontrivial"] = plan_rep.nontrivial
     rep.evaluations += plan_rep.evaluations
@@ -522,7 +544,11 @@ def explore(ctx) -> Report:
         "entries and subsequent payloads (cases answered by a single response are counted separately); plus "
         f"{plan_rep.evaluations} generated grouped field sets for build_execution_plan (non-trivial: >= 2 keys and a deferred field); plus "
         f"{len(texts)} generated documents (nested / labelled / if:false defers, @skip/@include, matching and non-matching type conditions, "
-        "fragments spread several times deferred and not, missing fragments) for collect_fields and one level of collect_subfields"
+        "fragments spread several times deferred and not, missing fragments) for collect_fields and one level of collect_subfields; plus "
+        f"{n_inc} generated (schema, document with @defer on inline fragments and spreads, variables, conforming synchronous data) requests of "
+        "C02's generators for the executor model IncExec: initial data and the multiset of (target path, data) of the delivered pieces compared "
+        "exactly (key order included) for early in {F,T}, the model's reference compared with Spec.executeRequest of the document without @defer "
+        "(non-trivial: at least one piece delivered)"
     )
     return rep
 
@@ -540,6 +566,8 @@ def replay(ctx, payload) -> Report:
     drv = DRIVER if ctx.driver else None
     if "collect_doc" in inp:
         return _collect_work(([inp["collect_doc"]], drv))
+    if "incexec_case" in inp:
+        return IX.work(([inp["incexec_case"]], drv))
     if "plan" in inp:
         p = inp["plan"]
         return _plan_work(([(p["parents"], p["parent_set"], [tuple(g) for g in p["groups"]])], drv))
